@@ -365,6 +365,20 @@ def cases_quat(tier, rng):
             q2 = [-0.0, -0.0, -0.0, -0.0]
             q2[i], q2[j] = si * r, sj * r
             out.append(['quat', [fh(v) for v in q2]])
+    # nearly, but not exactly, unit length ("negated and unnormalised inputs"): tie directions and
+    # random directions scaled by factors around 1 (a shortcut that trusts almost-unit inputs, or a
+    # tolerance in the normalisation, shows here: magnitudes overflow into the sign bit)
+    factors = [1.0 + d for d in (1e-9, -1e-9, 1e-6, -1e-6, 1e-3, -1e-3, 4e-3, -4e-3, 9e-3, -9e-3,
+                                 9.9e-3, -9.9e-3, 1.1e-2, -1.1e-2, 5e-2, -5e-2, 0.3, -0.3)]
+    dirs = [[r, r, 0.0, 0.0], [0.0, -r, 0.0, r], [0.5, 0.5, 0.5, 0.5], [0.5, -0.5, 0.5, -0.5],
+            [1.0, 0.0, 0.0, 0.0], [0.0, 0.0, -1.0, 0.0]]
+    for _ in range(12 if tier == 'quick' else 120):
+        q = [rng.gauss(0.0, 1.0) for _ in range(4)]
+        nrm = math.sqrt(sum(v * v for v in q)) or 1.0
+        dirs.append([v / nrm for v in q])
+    for d in dirs:
+        for f in factors:
+            out.append(['quat', [fh(v * f) for v in d]])
     # random: integer vectors at a random binary scale, and normalised float quaternions
     n_int, n_flt = (1000, 300) if tier == 'quick' else (8000, 2000)
     for _ in range(n_int):
